@@ -513,6 +513,7 @@ def _pairs_core():
 
 
 def replay(case: dict) -> dict:
+    case = case.get('input', case)      # the violation as reported (./check --replay) or its input
     sc.install()
     sc.fast_digest(True)
     found, _ = run_case(case)
